@@ -68,9 +68,9 @@ def run_property(prop: str, tier: str, seed: int, only_rule: str | None = None) 
                 line = int(line) if line.isdigit() else 0
                 qual = function_at(model, file, line)
                 ctx.violation("raises.EmptySelection", Where(file or "cij", qual, line), expected="the analysed path completes for every valid input",
-                              found=f"ValueError at {e.where} whenever the selection is empty", explanation=f"{qual or file}: .item() (or an unpacking of one element) is applied to the positions "
-                              f"selected by a condition on the temperature grid; a grid that does not contain T = 0 (T_MIN > 0, schema-valid) selects nothing and the call raises "
-                              f"ValueError: the calculation cannot complete", instance=f"{qual or file}: raises on an empty selection")
+                              found=f"ValueError at {e.where} whenever the selection is empty", explanation=f"{qual or file}: one element is taken (.item(), [0], an unpacking) from a result that is empty for part of the valid "
+                              f"inputs - the positions where the temperature grid is zero (none when T_MIN > 0), the residuals of a least-squares system that is not over-determined - "
+                              f"and the call raises there: the calculation cannot complete", instance=f"{qual or file}: raises on an empty selection")
             else:
                 ctx.error(e.reason, e.where)
         except RecursionError:
